@@ -293,6 +293,20 @@ namespace
                 out.push_back({ n.idx, n.distance, static_cast<uint8_t>(n.status) });
             return out;
         }
+        std::vector<va::Nb> nbs_walk(size_t i, size_t k) override
+        {
+            // "walking": the index argument is a reference INTO the output vector
+            // (grid.neighbors(nb[k].idx, nb)), seeded change C07-H
+            m_grid->neighbors(i, m_nb_buf);
+            std::vector<va::Nb> out;
+            if (k >= m_nb_buf.size())
+                return out;
+            m_nb_buf.reserve(64);  // no reallocation while the call writes into it
+            m_grid->neighbors(m_nb_buf[k].idx, m_nb_buf);
+            for (auto& n : m_nb_buf)
+                out.push_back({ n.idx, n.distance, static_cast<uint8_t>(n.status) });
+            return out;
+        }
         std::vector<std::pair<size_t, size_t>> nb_indices_rc(size_t r, size_t c, bool inplace) override
         {
             if constexpr (kind_of<G>::raster)
@@ -376,6 +390,47 @@ namespace
                 run(m_grid->nodes_indices());
             else
                 run(m_grid->nodes_indices(ns(static_cast<uint8_t>(filter))));
+            // the same walk with iterators that outlive the (temporary) container they came from:
+            // nodes_indices() returns its container by value and an iterator is a value of its own
+            // (seeded change C08-H); the two walks must agree
+            std::vector<size_t> out2;
+            if (filter < 0)
+            {
+                if (!reverse)
+                {
+                    auto it = m_grid->nodes_indices().begin();
+                    auto end = m_grid->nodes_indices().end();
+                    for (; it != end; ++it)
+                        out2.push_back(*it);
+                }
+                else
+                {
+                    auto it = m_grid->nodes_indices().rbegin();
+                    auto end = m_grid->nodes_indices().rend();
+                    for (; it != end; ++it)
+                        out2.push_back(*it);
+                }
+            }
+            else
+            {
+                auto st = ns(static_cast<uint8_t>(filter));
+                if (!reverse)
+                {
+                    auto it = m_grid->nodes_indices(st).begin();
+                    auto end = m_grid->nodes_indices(st).end();
+                    for (; it != end; ++it)
+                        out2.push_back(*it);
+                }
+                else
+                {
+                    auto it = m_grid->nodes_indices(st).rbegin();
+                    auto end = m_grid->nodes_indices(st).rend();
+                    for (; it != end; ++it)
+                        out2.push_back(*it);
+                }
+            }
+            if (out2 != out)
+                throw va::HarnessObservation("nodes_indices: iterators taken from temporaries yield " + std::to_string(out2.size()) + " indices, a named container " + std::to_string(out.size()));
             return out;
         }
         size_t cache_used() override
@@ -517,6 +572,12 @@ namespace
             array_type ka = to_array(m_g.grid(), k);
             m_e->set_k_coef(ka);
         }
+        void set_k_array_bad_shape() override
+        {
+            // one element more than the grid has nodes, values that would be visible if they stayed
+            array_type ka = xt::ones<double>({ m_g.size() + 1 }) * 12345.0;
+            m_e->set_k_coef(ka);
+        }
         std::vector<double> k_coef() override
         {
             const auto& k = m_e->k_coef();
@@ -630,7 +691,16 @@ namespace
         }
         void set_mask_bad_shape() override
         {
-            xt::xarray<bool> a = xt::zeros<bool>({ m_ga.size() + 1 });
+            // all true (visible if it stayed in force): the transposed shape where that differs
+            // from the grid's (same size: reading it by flat index stays inside the array),
+            // otherwise one element / one row more
+            auto gs = m_ga.grid().shape();
+            typename xt::xarray<bool>::shape_type shp(gs.begin(), gs.end());
+            if (shp.size() == 2 && shp[0] != shp[1])
+                std::swap(shp[0], shp[1]);
+            else
+                shp[0] += 1;
+            xt::xarray<bool> a = xt::ones<bool>(shp);
             m_g->set_mask(a);
         }
         std::vector<uint8_t> mask() const override
@@ -960,6 +1030,15 @@ namespace
             }
             else
                 (void) k;
+        }
+        void set_k_array_bad_shape() override
+        {
+            if constexpr (kind_of<G>::raster)
+            {
+                auto shp = m_ga.grid().shape();
+                xt::xtensor<double, 2> ka = xt::ones<double>({ shp[0] + 1, shp[1] }) * 12345.0;
+                m_e->set_k_coef(ka);
+            }
         }
         std::vector<double> k_coef() override
         {
